@@ -7,6 +7,7 @@ import Gtree.Lemmas.Validate
 import Gtree.Props.C05
 import Gtree.Lemmas.Confined
 import Gtree.Lemmas.MkOps
+import Gtree.Lemmas.TreeFacts
 /-
   C07 — names are validated first: a tree containing a name that is not a single valid path element
   is rejected, and (without the massive option) nothing at all is created – for From-Markdown and
@@ -289,4 +290,15 @@ theorem C07_validates_before_creating_in_the_source (dg : SrcH.defaultGrowerSimp
           some ((mkdirRoots fs dm.targetDir dm.fileConsiderer.extensions (ts.map (growRoot (SrcH.fmtOf dg)))).1,
                 SrcH.mkErrSrc (mkdirRoots fs dm.targetDir dm.fileConsiderer.extensions (ts.map (growRoot (SrcH.fmtOf dg)))).2)) :=
   SrcH.grow_then_mkdir dg dm ts h fs rs fuel hv hr hnd hf
+end Gtree
+
+namespace Gtree
+
+/-- **C07 (facts: composition).**  Every operation of the simple tree that creates or compares directories switches
+    the grower's validation on before it grows anything, and grows before it does anything else. -/
+theorem C07_facts_validation_is_enabled_before_growing :
+    ["mkdir", "mkdirProgrammably", "verify", "verifyProgrammably"].all
+      (fun op => (lookupL op Facts.treeSimpleCalls).take 2 == ["grower.enableValidation", "grower.grow"]) = true :=
+  validating_operations_enable_validation_first
+
 end Gtree
